@@ -32,7 +32,7 @@ theorem self_stepD {val : Val} {voters : List Id} {n : Nat} (happ : AppRespDOK v
   · have hty : Deliverable m.typ := by
       unfold Deliverable
       rcases hk with hk | hk <;> simp [hk]
-    have := sim_lower_term hinv h0 hlt hty h'
+    have := sim_lower_term h0 hlt hty (by rcases hk with hk | hk <;> simp [hk]) h'
     subst this
     exact ⟨RaftSimD.refl hinv, haux, AuxFrame.refl _⟩
   · have hterm : m.term = r.term := Nat.le_antisymm hle hge
